@@ -12,7 +12,7 @@ import (
 	"bngverif/internal/vstat"
 )
 
-var replayPeer = [4]byte{8, 8, 4, 4}
+var replayPeer = [4]byte{9, 9, 9, 250}
 
 func replayRecord(name string, nt bool, sample any, cls ...string) {
 	vstat.Case(nt, vstat.Hash("replay", name), func() any { return sample }, append([]string{"replay"}, cls...)...)
